@@ -254,8 +254,44 @@ _SYMBOL = re.compile(r"[A-Z][a-z]*")
 _COUNT = re.compile(r"(?:(?:[1-9][0-9]*|0)?\.[0-9]*|[1-9][0-9]*)")
 _ISO = re.compile(r"\[([1-9][0-9]*)\]")
 _ION = re.compile(r"\{((?:[1-9][0-9]*)?[+-])\}")
-_UNIT = re.compile(r"(?:^|\()\s*(?:(?:[1-9][0-9]*|0)?\.[0-9]*|[1-9][0-9]*)\s*"
-                   r"(?:kg|g|mg|ug|ng|L|mL|uL|nL|cm|mm|um|nm)")
+#: the other token classes of the documented formula grammar (mixture productions) and of formulas.py, by
+#: class: the documented unit names; the words of the percentage forms ('wt%', 'vol%' in the guide; the
+#: other spellings are the ones formulas.py reads: w, wt, weight, m, mass, v, vol, volume); the two density
+#: suffixes; the hydrogen aliases; the exponent letter of a number (not a token of the grammar: the guide's
+#: counts have no exponent, but Python's float() reads one).  Only used to FORCE COLLISIONS with element
+#: symbols in the enumerations of C01 (which symbols look like another token under some case folding) and
+#: to name the cause of a violation; no oracle depends on it.
+TOKEN_CLASSES = (
+    ("unit", ("kg", "g", "mg", "ug", "ng", "L", "mL", "uL", "nL", "cm", "mm", "um", "nm")),
+    ("percent-word", ("wt", "vol", "w", "weight", "m", "mass", "v", "volume")),
+    ("density-suffix", ("n", "i")),
+    ("hydrogen-alias", ("D", "T")),
+    ("exponent-letter", ("e",)),
+)
+_UNIT_NAMES = "kg|g|mg|ug|ng|L|mL|uL|nL|cm|mm|um|nm"
+# a quantity 'count unit part' at the start, after '(' or after '//'; the count is optional here as it is
+# in `group` (the unchanged parser reads "LO" as one litre of O), and something that can start a part
+# follows the unit: such strings are not judged
+_UNIT = re.compile(r"(?:^|\(|//)\s*(?:(?:[1-9][0-9]*|0)?\.[0-9]*|[1-9][0-9]*)?\s*(?:%s)(?=\s*[A-Z(0-9.])"
+                   % _UNIT_NAMES)
+
+
+def collision_classes(symbol, extra_units=(), closest=False):
+    """Token classes that `symbol` collides with under case folding: the folded symbol equals a token, is
+    the beginning of one (W ~ wt, K ~ kg) or begins with one (Ga ~ g, Ni ~ n).  Sorted tuple of names.
+    closest: only the classes with a token EQUAL to the folded symbol, if there is one (Mg: unit)."""
+    s = symbol.lower()
+    out, equal = set(), set()
+    for name, words in TOKEN_CLASSES:
+        if name == "unit":
+            words = tuple(words) + tuple(extra_units)
+        for w in words:
+            w = w.lower()
+            if s == w:
+                equal.add(name)
+            if s == w or w.startswith(s) or s.startswith(w):
+                out.add(name)
+    return tuple(sorted(equal if (closest and equal) else out))
 _WS = " \t\r\n\f\v"
 
 
